@@ -1130,6 +1130,14 @@ class Interp:
             return ta.a_dot(args[0], args[1])
         if short == "transpose" and len(args) == 1 and isarr(args[0]) and not kwargs:
             return ta.a_transpose(args[0])
+        if short == "transpose" and isarr(args[0]) and (len(args) == 2 or "axes" in kwargs):
+            axes = args[1] if len(args) == 2 else kwargs["axes"]
+            a = args[0]
+            if isinstance(axes, (tuple, list)) and sorted(axes) == list(range(a.rank)):
+                axes = list(axes)
+                # B[i_0 .. i_{r-1}] = A[j_0 .. j_{r-1}] with j[axes[n]] = i[n]
+                return Array.from_fn(a.rank, lambda *idx: a.at(*[idx[axes.index(k)] for k in range(a.rank)]))
+            self.err(node, "transpose with axes that are not a permutation of the array's axes")
         if short in ("conj", "conjugate") and len(args) == 1:
             return ta.a_conj(args[0]) if isarr(args[0]) else _conj_s(args[0])
         if short in ("multiply", "add", "subtract") and len(args) == 2 and not kwargs and \
